@@ -204,6 +204,8 @@ func runC02(c *Check) {
 	c.ruleHeaderCursorRefreshed("R8")
 	c.ruleCursorStoreAfterAdmission("R10")
 	c.ruleRevertPrunesViaGetter("R9", a)
+	c.ruleRevertRemovesRevertedHeights("R11")
+	c.ruleStartHeightIsNextHeight("R12")
 }
 
 // ruleRepoCoupled: any function that writes one of (height, lastHeaders, heights) writes the others on
@@ -286,8 +288,17 @@ func runC09(c *Check) {
 				default:
 					continue
 				}
-				rem, ok := idx.(*ssa.BinOp)
-				if !ok || rem.Op != token.REM {
+				// the index is a remainder: x % k, or spelled out x - (x/k)*k
+				var rem *ssa.BinOp
+				li := linOfValue(idx)
+				for t, cf := range li.terms {
+					if bo, ok := stripConv(li.atoms[t]).(*ssa.BinOp); ok && (bo.Op == token.REM || bo.Op == token.QUO) {
+						if k, isC := constInt(bo.Y); isC && k > 0 && cf == -k && len(li.terms) == 2 && li.k == 0 {
+							rem = bo
+						}
+					}
+				}
+				if rem == nil {
 					continue
 				}
 				bt, isBasic := rem.X.Type().Underlying().(*types.Basic)
@@ -365,6 +376,9 @@ func runC09(c *Check) {
 	c.ruleRevertFileLoop("R9")
 	c.ruleMakeSizesBounded("R10", "spynode.(*Node).GetHeaders")
 	c.ruleReadIsFresh("R11", a)
+	c.ruleHeadersRangeIsMaxCount("R14")
+	c.ruleHeightGettersAgree("R13")
+	c.ruleRevertStartsAtNewestFile("R15")
 	c.ruleSaveNotSkipped("R12", []string{"storage.(*BlockRepository).save", "storage.(*BlockRepository).Save"}, "storage", "BlockRepository",
 		map[*types.Var]bool{a.lastHeaders: true, a.height: true}, map[string]bool{"storage.(*BlockRepository).Load": true, "storage.NewBlockRepository": true})
 
@@ -589,6 +603,9 @@ func runC10(c *Check) {
 
 	c.ruleRevertFileLoop("R6")
 	c.ruleSetLastHashAfterAdd("R7")
+	c.ruleRevertStartsAtNewestFile("R8")
+	c.ruleHeightGettersAgree("R9")
+	c.ruleRevertRemovesRevertedHeights("R10")
 
 	if fn := c.Fn("R2", "storage.(*BlockRepository).Add"); fn != nil {
 		n := 0
